@@ -36,7 +36,7 @@ use crate::error::{ProtocolError, Result};
 use crate::v1_mime::signature::parse_and_verify_signature;
 use crate::v1_mime::types::V1MimeResponse;
 use base64::Engine;
-use mail_parser::{HeaderValue, MessageParser, PartType};
+use mail_parser::{HeaderValue, PartType};
 use tracing::{debug, trace, warn};
 
 /// Parse a V1 MIME response with signature verification
@@ -72,8 +72,7 @@ pub fn parse_v1_mime_response(
     }
 
     // Parse MIME message
-    let message = MessageParser::default()
-        .parse(message_data)
+    let message = crate::mime_parser::parse_message(message_data)
         .ok_or_else(|| ProtocolError::Parse("Failed to parse MIME message".to_string()))?;
 
     trace!(
